@@ -101,6 +101,21 @@ static PPath gen_base(Rng& r, const Frame& f, int fam, int maxpts) {
       }
       p.push_back({f.cx + f.ext, base - std::max<int64_t>(1, f.ext / 8), 0}); p.push_back({f.cx - f.ext, base - std::max<int64_t>(1, f.ext / 8), 0});
       break; }
+    case 13: {                                                                                                    // many-vertex circle: the only family used for tens of thousands of points (two active edges: linear sweep)
+      n = (int)r.range(std::max(3, maxpts / 2), std::max(3, maxpts)); double ph = r.unit() * 6.28318530717958647692, rad = (double)f.ext;
+      for (int i = 0; i < n; ++i) { double a = ph + 6.28318530717958647692 * (double)i / (double)n; PPt q; q.x = f.cx + (int64_t)std::llround(rad * std::cos(a)); q.y = f.cy + (int64_t)std::llround(rad * std::sin(a)); p.push_back(q); }
+      break; }
+    case 12: {                                                                                                    // near-collinear at scale: equal long steps w = T*d + unit, then small slides along d
+      int64_t dx = r.range(-3, 3), dy = r.range(-3, 3); if (dx == 0 && dy == 0) dx = 1;
+      int64_t T = std::max<int64_t>(1, f.ext / (4 * std::max<int64_t>(1, std::max(std::llabs(dx), std::llabs(dy)))));
+      T = r.range(std::max<int64_t>(1, T / 2), T);
+      int64_t ux = 0, uy = 0; if (r.chance(0.5)) ux = r.chance(0.5) ? 1 : -1; else uy = r.chance(0.5) ? 1 : -1;
+      int64_t wx = T * dx + ux, wy = T * dy + uy;
+      PPt a; a.x = f.cx - wx - wx / 2; a.y = f.cy - wy - wy / 2; p.push_back(a);
+      int steps = (int)r.range(2, 3);
+      for (int i = 1; i <= steps; ++i) { int64_t sl = i == 1 ? 0 : r.range(-3, 3); PPt q; q.x = a.x + i * wx + sl * dx; q.y = a.y + i * wy + sl * dy; p.push_back(q); }
+      PPt far; far.x = f.cx - wy / 2 + r.range(-2, 2); far.y = f.cy + wx / 2 + r.range(-2, 2); p.push_back(far);            // off the line: makes it a polygon
+      break; }
     default: {                                                                                                    // random walk (self-intersecting)
       n = (int)r.range(3, std::max(3, std::min(maxpts, 120))); PPt a = rnd_pt(r, f); int64_t st = std::max<int64_t>(1, f.ext / 4);
       for (int i = 0; i < n; ++i) { p.push_back(a); a.x += snap(r.range(-st, st), f.grid); a.y += snap(r.range(-st, st), f.grid);
@@ -125,6 +140,7 @@ static void decorate(Rng& r, PPath& p, int64_t lo, int64_t hi) {
 
 static void add_z(Rng& r, PPath& p, bool z) { if (z) for (PPt& q : p) q.z = r.range(0, 9); }
 
+static int g_huge_fam = 13;
 PPaths gen_paths(Rng& r, int64_t mag, int maxpaths, int maxpts, bool z, const Frame* shared) {
   PPaths out;
   Frame f = shared ? *shared : make_frame(r, mag);
@@ -139,10 +155,11 @@ PPaths gen_paths(Rng& r, int64_t mag, int maxpaths, int maxpts, bool z, const Fr
       else if (k == 1) { int64_t dx = r.range(-2, 2), dy = r.range(-2, 2); for (PPt& q : p) { q.x = std::max(-mag, std::min(mag, q.x + dx)); q.y = std::max(-mag, std::min(mag, q.y + dy)); } }
       else if (k == 2 && !p.empty()) std::rotate(p.begin(), p.begin() + r.below(p.size()), p.end());
     } else {
-      static const int fams[] = {0, 0, 0, 1, 1, 2, 2, 3, 3, 4, 4, 5, 6, 6, 7, 8, 9, 10, 11};
+      static const int fams[] = {0, 0, 0, 1, 1, 2, 2, 3, 3, 4, 4, 5, 6, 6, 7, 8, 9, 10, 11, 12};
       int fam = fams[r.below(sizeof(fams) / sizeof(int))];
       if (maxpts > 120 && r.chance(0.75)) fam = 9 + (int)r.below(3);       // a large size class means a long structured path
       if (maxpts > 2000) fam = r.chance(0.5) ? 9 : 11;                      // the largest class: only the families whose crossings stay linear
+      if (maxpts > 4000) fam = g_huge_fam;                                  // tens of thousands of points: circle (sweep) or saw-tooth (rectangle clipping, which is linear)
       Frame g = f;
       if (r.chance(0.3)) { g.ext = std::max<int64_t>(1, f.ext / 2); g.cx = f.cx + snap(r.range(-f.ext / 2, f.ext / 2), f.grid); g.cy = f.cy + snap(r.range(-f.ext / 2, f.ext / 2), f.grid); }
       p = gen_base(r, g, fam, maxpts);
@@ -337,6 +354,7 @@ static int append_entry(Rng& r, Plan& pl, int kind, int task, int slot0, const s
       }
       return 0; }
     case 7: {  // rect clip: free functions and objects
+      struct HugeFam { int old; HugeFam() : old(g_huge_fam) { g_huge_fam = 9; } ~HugeFam() { g_huge_fam = old; } } huge_fam_is_sawtooth;
       MagClass mc = pick_mag(r, cfg, false); Frame f = make_frame(r, mc.mag);
       PPt a = rnd_pt(r, f), b = rnd_pt(r, f);
       if (r.chance(0.4)) { int64_t h = std::max<int64_t>(1, f.ext / r.range(3, 8)); a = {f.cx - h, f.cy - h, 0}; b = {f.cx + h, f.cy + h, 0}; }   // small rectangle in the middle: paths cross it many times
@@ -490,6 +508,10 @@ Plan gen_c10(uint64_t seed, uint64_t run, const std::string& cfg) {
     if (run >= 1000000000ull) { if (big < 3 && !slow) maxpts = 2000; else if (big < 12) maxpts = 400; }
     else if (big < 6) maxpts = 400;
     if (maxpts > 100) maxpaths = 2; }
+  // very rarely, in the fault-free workers only: tens to hundreds of thousands of points (block / chunk / pool boundaries inside the
+  // library), restricted to entry classes and shapes whose cost stays linear: boolean clipping of circles, rectangle clipping of a saw-tooth
+  bool huge = run >= 1000000000ull && !(!cfg.empty() && cfg[0] == 'V') && g.below(1500) == 0;
+  if (huge) { static const int hp[] = {30000, 120000, 330000}; maxpts = hp[g.below(3)]; maxpaths = 1; }
   if (g.chance(0.08)) {                                          // phase C: faults inside object histories
     Plan h = gen_c12_base(seed, run * 8 + 2 + g.below(6), cfg);
     h.prop = "C10"; h.check_model = 0; h.run = run; h.env = pl.env;
@@ -497,7 +519,9 @@ Plan gen_c10(uint64_t seed, uint64_t run, const std::string& cfg) {
     return h;
   }
   int kind = (int)(run % N_ENTRY_KINDS);                         // stratified: every entry class is visited
+  if (huge) { static const int hk[] = {0, 3, 7, 7}; kind = hk[g.below(4)]; }
   int used = append_entry(g, pl, kind, 0, 0, cfg, z, maxpaths, maxpts, -1);
+  if (huge) return pl;
   if (g.chance(0.15)) append_entry(g, pl, (int)g.below(N_ENTRY_KINDS), 0, used, cfg, z, 2, 8, -1);   // short histories (phase C)
   return pl;
 }
@@ -583,7 +607,9 @@ static Plan gen_c12_base(uint64_t seed, uint64_t run, const std::string& cfg) {
   int mode = (int)(run % 8);
   if (mode == 0 || mode == 1) { gen_offset_alone_history(g, pl, z); return pl; }
   static const int shs[] = {3, 4, 6, 8, 10, 14, 20};
-  int64_t mag = (int64_t)1 << shs[g.below(7)];
+  static const int shs_big[] = {24, 26, 27, 30, 34, 40, 47, 55};    // builds without the strict signed-overflow check: state that depends on the coordinate range
+  bool bigmag = cfg.find("62") != std::string::npos;
+  int64_t mag = (int64_t)1 << (bigmag ? shs_big[g.below(8)] : shs[g.below(7)]);
   Frame f = make_frame(g, mag);
   int maxpaths = 3, maxpts = g.chance(0.8) ? 8 : 16;
   // now and then a larger rectilinear input (many horizontal edges starting at the same x, many coincident edges):
